@@ -236,6 +236,11 @@ class Run:
         return True
 
     def do_tempo(self, org, i, v):
+        if self.mode == 'rt' and org is not None:
+            # a busy body: the routine is LATE (physical time ahead of its logical time) when it changes the tempo
+            t_end = time.time() + 0.002
+            while time.time() < t_end:
+                pass
         try:
             self.clocks[i].tempo = num(v)
             ok = True
@@ -419,19 +424,115 @@ def run_rt(prog):
             'offset': str(SystemClock._elapsed_osc_offset), 'nrout': run.nrout, 'nended': run.nended}
 
 
+# ---------------------------------------------------------------- law probes (no model: the harness has its own oracle)
+def run_probe(pr):
+    """One scheduling operation issued from inside a routine that runs on clock pr['parent'], started at a
+    non-zero time and advanced by a yield; see props/_kscript.py:probe_expected for the law."""
+    from sc3.base.clock import defer
+    if MODE == 'nrt':
+        main.reset()
+    lock = main._main_lock
+    obs = {'done': False}
+    clocks = []
+    with lock:
+        for t in pr['tempos']:
+            clocks.append(TempoClock(num(t)))
+        obs['clock_base'] = [fr(c._base_seconds) for c in clocks]
+
+    def ck(c):
+        return SystemClock if c == 'S' else AppClock if c == 'A' else clocks[c[1]]
+    parent, target = ck(pr['parent']), ck(pr['target'])
+    op = pr['op']
+
+    def snap(tag, clock):
+        obs[tag] = {'secs': fr(main.current_tt._seconds), 'beats': fr(clock.beats)}
+
+    def f():
+        snap('ran', target)
+        obs['done'] = True
+
+    def child(inval):
+        _, clock = inval
+        snap('ran', clock)
+        obs['done'] = True
+        yield num('1/64')
+
+    def parent_body(inval):
+        _, clock = inval
+        yield num(pr['adv'])
+        snap('at_op', clock)
+        obs['target_beats_at_op'] = fr(target.beats)
+        if MODE == 'rt':
+            t_end = time.time() + 0.002        # be late
+            while time.time() < t_end:
+                pass
+        if op == 'sched':
+            target.sched(num(pr['delta']), f)
+        elif op == 'defer':
+            defer(f, num(pr['delta']), target)
+        elif op == 'play':
+            Routine(child).play(target, 0)
+        elif op == 'beats':
+            clock.beats = num(pr['val'])
+            snap('after_set', clock)
+        elif op == 'etempo':
+            clock.etempo(num(pr['val']))
+            snap('after_set', clock)
+        elif op == 'tempo':
+            clock.tempo = num(pr['val'])
+            snap('after_set', clock)
+        if op in ('beats', 'etempo', 'tempo'):
+            yield num(pr['after'])
+            snap('ran', clock)
+            if MODE == 'rt':
+                got = []
+                main._osc_interface._send = lambda msg, target: got.append(bytes(msg.dgram))
+                NetAddr('127.0.0.1', 57110).send_bundle(num(pr['delta']), ['/m', 1])
+                obs['timetag'] = str(struct.unpack('>Q', got[0][8:16])[0])
+                obs['osc_offset'] = str(SystemClock._elapsed_osc_offset)
+            obs['done'] = True
+
+    def root(inval):
+        snap('root', SystemClock)
+        yield num(pr['start'])
+        Routine(parent_body).play(parent, 0)
+
+    with lock:
+        Routine(root).play(SystemClock)
+    if MODE == 'nrt':
+        main.process(0)
+    else:
+        deadline = time.time() + 5.0
+        while time.time() < deadline:
+            with lock:
+                if obs['done']:
+                    break
+            time.sleep(0.01)
+        for c in clocks:
+            c.stop()
+    return obs
+
+
 def main_():
     payload = json.load(open(sys.argv[1]))
     out = []
     if MODE == 'rt':
         rt_setup(payload.get('seed', 1))
-    for prog in payload['cases']:
+    for prog in payload.get('cases', []):
         try:
             out.append(run_nrt(prog, payload.get('share_lists', False)) if MODE == 'nrt' else run_rt(prog))
         except Exception as e:
             import traceback
             out.append({'fatal': '%r\n%s' % (e, traceback.format_exc())})
+    pout = []
+    for pr in payload.get('probes', []):
+        try:
+            pout.append(run_probe(pr))
+        except Exception as e:
+            import traceback
+            pout.append({'fatal': '%r\n%s' % (e, traceback.format_exc())})
     with open(sys.argv[2], 'w') as f:
-        json.dump({'out': out}, f)
+        json.dump({'out': out, 'probes_out': pout}, f)
     global _burn
     _burn = False
 
